@@ -23,6 +23,7 @@ class ScriptedSocket:
         self.accepted = bytearray()
         self.timeout = timeout
         self.calls = []
+        self.trace = []      # per call: "d" transferred, "eof" recv gave b'' for n > 0, "r"/"f"/"t" raised, ("p" counts as "r" or "f")
 
     def _next(self):
         if self.idx >= len(self.script):
@@ -32,6 +33,7 @@ class ScriptedSocket:
         return ev
 
     def _raise(self, ev):
+        self.trace.append(ev[0] if ev[0] != "p" else ("r" if (len(ev) > 3 and ev[3]) else "f"))
         if ev[0] == "r":
             raise OSError(ev[1], "scripted retryable")
         if ev[0] == "f":
@@ -49,6 +51,7 @@ class ScriptedSocket:
             k = min(ev[1], n)
             chunk = self.stream[self.pos:self.pos + k]
             self.pos += len(chunk)
+            self.trace.append("eof" if (n > 0 and not chunk) else "d")
             return chunk
         self._raise(ev)
 
@@ -58,6 +61,7 @@ class ScriptedSocket:
         if ev[0] == "d":
             k = min(ev[1], len(data))
             self.accepted += bytes(data[:k])
+            self.trace.append("d")
             return k
         self._raise(ev)
 
@@ -66,6 +70,7 @@ class ScriptedSocket:
         ev = self._next()
         if ev[0] == "d":
             self.accepted += bytes(data)
+            self.trace.append("d")
             return None
         if ev[0] == "p":
             self.accepted += bytes(data[:ev[1]])
@@ -91,4 +96,8 @@ class NoSleep:
         return getattr(self._real, name)
 
 
-FATAL_ERRNOS = [errno.ECONNRESET, errno.EPIPE, errno.ECONNABORTED, errno.EBADF, errno.ENOTCONN, errno.EPERM]
+# every errno the source's own comment calls unrecoverable (EPERM, ENOBUFS, EMFILE) plus the usual connection-lost ones
+FATAL_ERRNOS = [errno.ECONNRESET, errno.EPIPE, errno.ECONNABORTED, errno.EBADF, errno.ENOTCONN, errno.EPERM,
+                errno.ENOBUFS, errno.EMFILE, errno.ENFILE, errno.ENOMEM, errno.EHOSTUNREACH, errno.ENETDOWN,
+                errno.ENETUNREACH, errno.ENETRESET, errno.ECONNREFUSED, errno.ESHUTDOWN, errno.EIO, errno.EINVAL, errno.EFAULT,
+                errno.ENOTSOCK, errno.EOPNOTSUPP, errno.EMSGSIZE, errno.EDESTADDRREQ, errno.EALREADY, errno.EISCONN]
